@@ -551,6 +551,16 @@ Lemma run_loop_adequate find k d : finder_sound find k ->
   end.
 Proof. intro Hs. unfold run_loop. apply fix_loop_adequate; [exact Hs|lia]. Qed.
 
+(* the scans stay inside the document whatever their scope is; on the unchanged source they are the descendants *)
+Lemma link_scope_in d node c : In node (sflat d) -> In c (link_scope d node) -> In c (sflat d).
+Proof. unfold link_scope. destruct G_PRE_LINK_SCOPE; [apply sflat_trans|exact (fun _ H => H)]. Qed.
+Lemma pat_scope_in d p c : In p (sflat d) -> In c (pat_scope d p) -> In c (sflat d).
+Proof. unfold pat_scope. destruct G_PRE_PAT_SCOPE; [apply sflat_trans|exact (fun _ H => H)]. Qed.
+Lemma link_scope_eq d node : link_scope d node = sflat node.
+Proof. reflexivity. Qed.
+Lemma pat_scope_eq d p : pat_scope d p = sflat p.
+Proof. reflexivity. Qed.
+
 Lemma find_pattern_sound k : finder_sound (find_recursive_pattern k) k.
 Proof.
   intros d id H. unfold find_recursive_pattern in H.
@@ -560,7 +570,7 @@ Proof.
   destruct (attr_link k (s_attrs node)) as [lid|] eqn:El; [|discriminate].
   destruct (optN_eqb (Some lid) (s_name p)).
   - destruct G_PRE_PAT_SELF; [|discriminate]. injection H as <-.
-    exists node. repeat split; [eapply sflat_trans; eassumption|]. unfold has_link. rewrite El. reflexivity.
+    exists node. repeat split; [apply (pat_scope_in d p node Hp Hnode)|]. unfold has_link. rewrite El. reflexivity.
   - destruct G_PRE_PAT_TWO; [|discriminate].
     destruct (lookup d lid) as [ln|] eqn:Eln; [|discriminate].
     apply find_map_some in H. destruct H as (n2 & Hn2 & H).
@@ -582,7 +592,7 @@ Proof.
   destruct (node_attr d k child) as [link|] eqn:El; [|discriminate].
   destruct (Nat.eqb (s_id link) (s_id node)).
   - destruct G_PRE_LINK_SELF; [|discriminate]. injection H as <-.
-    exists child. repeat split; [eapply sflat_trans; eassumption|eapply node_attr_has_link; exact El].
+    exists child. repeat split; [apply (link_scope_in d node child Hnode Hchild)|eapply node_attr_has_link; exact El].
   - destruct G_PRE_LINK_TWO; [|discriminate].
     apply find_map_some in H. destruct H as (n2 & Hn2 & H).
     destruct (node_attr d k n2) as [l2|] eqn:E2; [|discriminate].
@@ -616,6 +626,7 @@ Lemma find_link_none e k d : find_recursive_link e k d = None -> no_short_link_c
 Proof.
   intros H node child link Hnode Htag Hchild Hl. unfold find_recursive_link in H.
   rewrite find_map_none in H. specialize (H node Hnode). rewrite Htag, tag_eqb_refl in H.
+  rewrite link_scope_eq in H.
   rewrite find_map_none in H. specialize (H child Hchild). rewrite Hl in H.
   change G_PRE_LINK_SELF with true in H. change G_PRE_LINK_TWO with true in H.
   destruct (Nat.eqb (s_id link) (s_id node)) eqn:E; [discriminate|].
@@ -628,6 +639,7 @@ Lemma find_pattern_none k d : find_recursive_pattern k d = None -> no_short_patt
 Proof.
   intros H p node lid Hp Htag Hnode Hl. unfold find_recursive_pattern in H.
   rewrite find_map_none in H. specialize (H p Hp). rewrite Htag in H. cbn [tag_eqb] in H.
+  rewrite pat_scope_eq in H.
   rewrite find_map_none in H. specialize (H node Hnode). rewrite Hl in H.
   change G_PRE_PAT_SELF with true in H. change G_PRE_PAT_TWO with true in H.
   destruct (optN_eqb (Some lid) (s_name p)) eqn:E; [discriminate|].
